@@ -1,1 +1,266 @@
-import CnlModel.Basic
+import CnlProofs.MakeFraction
+/-!
+# C17 — constructing a `cnl::fraction` from floating point terminates with a faithful result
+
+Model: `CnlModel/MakeFraction.lean` (`makeFraction F I d fuel`, every floating operation through
+`CnlModel/CFloat.lean`, every integer operation through `CnlModel/CInt.lean`), tied to
+`/repo/include/cnl/_impl/fraction/make_fraction.h` by the `C17 mf …` correspondence table.
+Spec: `CnlSpec/MakeFraction.lean` (`Faithful I x fr`: the property's clauses in exact arithmetic).
+
+The full statement `C17_full` is kept below and is **false** of the unchanged code
+(`C17_refuted`, and one refutation per defect class from a concrete kernel-evaluated witness).
+What is proved for all formats `F`, all inputs `d` and all component widths (≥ 32 bits where
+stated — below that `static_cast<int_t>` of an `int` intermediate wraps silently):
+
+* `C17_fuel_independent` — the outcome of a terminating evaluation does not depend on the fuel;
+* `C17_invariant_init`, `C17_invariant_step`, `C17_lowest_terms` — on entry to the loop and after
+  every continuing iteration the two bounds have all components in range and
+  `right.num·left.den − left.num·right.den = 1`, whatever the floating-point operations returned
+  (clamped or not); hence both bounds are in lowest terms;
+* `C17_exit_prelude`, `C17_exit_step` — every returning branch other than the zero-jump exit
+  returns a fraction `f` with `static_cast<FP>(f) == d` (for the `mid` exit: the mediant is
+  neither below nor above `d`, which is equality unless the comparison is unordered);
+* `C17_negative_by_negation` — a negative input yields the negated numerator of the result for `−d`;
+* `C17_small_ratios_exact` — for `float`/`int32`, every `±p/q`, `q ≤ 8`, `p ≤ 3q` (as rounded to
+  float) terminates within 64 iterations with exactly the reduced fraction `±p/q` (kernel sweep);
+* `C17_partial` / `C17_defect_sound` — outside the decidable defect classes of
+  `MakeFractionSpec.classify` (listed in `findings/C17.json`) the model's result is faithful,
+  and inside them it is not.
+
+Not proved (stays with the correspondence sweep): termination and the error bound for all inputs
+outside the defect classes — no unbounded termination argument over floating-point comparisons is
+attempted; positivity of the denominators is *not* an invariant (a jump length computed in
+floating point can be negative: `witness_negative_denominator`).
+-/
+namespace Cnl.C17
+open Cnl Cnl.MakeFraction Cnl.MakeFractionSpec
+
+/-- the property's quantifier: a signed component type, a datum of the floating format that is
+finite with `|d| ≤ numeric_limits<int_t>::max()` -/
+def Admissible (F : Fmt) (I : IntTy) (d : FVal) : Prop :=
+  I.signed = true ∧ 2 ≤ I.bits ∧ F.Canonical d = true ∧ inDomain I d = true
+
+instance (F : Fmt) (I : IntTy) (d : FVal) : Decidable (Admissible F I d) := by
+  unfold Admissible; exact inferInstance
+
+/-- **the full property** (properties.jsonl C17): termination with a faithful result -/
+def C17_full : Prop :=
+  ∀ (F : Fmt) (I : IntTy) (d : FVal), Admissible F I d →
+    ∃ (fuel : Nat) (fr : Frac), makeFraction F I d fuel = .ok fr ∧ Faithful I d fr
+
+/-! ## fuel -/
+
+theorem C17_fuel_independent (F : Fmt) (I : IntTy) (d : FVal) (n m : Nat) (r r' : Res Frac)
+    (h : makeFraction F I d n = r) (hr : r ≠ .diverges)
+    (h' : makeFraction F I d m = r') (hr' : r' ≠ .diverges) : r = r' :=
+  makeFraction_unique F I d n m r r' h hr h' hr'
+
+/-- a terminating evaluation whose outcome is not a faithful fraction refutes the property at that input -/
+theorem no_faithful_result (F : Fmt) (I : IntTy) (d : FVal) (n : Nat) (r : Res Frac)
+    (h : makeFraction F I d n = r) (hr : r ≠ .diverges) (hbad : ∀ fr, r = .ok fr → ¬ Faithful I d fr) :
+    ¬ ∃ (fuel : Nat) (fr : Frac), makeFraction F I d fuel = .ok fr ∧ Faithful I d fr := by
+  rintro ⟨fuel, fr, hf, hfa⟩
+  have := makeFraction_unique F I d n fuel r (.ok fr) h hr hf (by simp)
+  exact hbad fr this hfa
+
+/-! ## refutation: one kernel-evaluated witness per defect class (`float`, `int32_t` unless stated) -/
+
+/-- 2^-31: `n0 = 2^31` passes `n0 <= float(INT_MAX)` and is cast to `int` -/
+def w_ub : FVal := .fin false (2 ^ 23) (-54)
+/-- 2031.9707f = 0x1.fbfe2p+10 — an ordinary value (hangs in a plain `-O2 -DNDEBUG` build) -/
+def w_ub_ordinary : FVal := binary32.ofDyadic false 0x1fbfe2 (-10)
+/-- 0.48827770f = 0x1.f3ff12p-2 -/
+def w_assert : FVal := binary32.ofDyadic false 0x1f3ff12 (-26)
+/-- 0x1.9ffffep-24 -/
+def w_negden : FVal := binary32.ofDyadic false 0x19ffffe (-48)
+/-- 0x1.d3ffdcp-29 -/
+def w_zero : FVal := binary32.ofDyadic false 0x1d3ffdc (-53)
+/-- 7359.8896f = 0x1.cbfe3ep+12 = 15073055/2048 -/
+def w_inexact : FVal := binary32.ofDyadic false 0x1cbfe3e (-12)
+/-- 0.1f -/
+def w_tenth : FVal := binary32.round (1 / 10)
+
+theorem witness_ub : makeFraction binary32 i32 w_ub 100 = .ub .floatToIntRange := by decide +kernel
+theorem witness_ub_ordinary : makeFraction binary32 i32 w_ub_ordinary 100 = .ub .floatToIntRange := by decide +kernel
+theorem witness_assertion : makeFraction binary32 i32 w_assert 100
+    = .unreachable "n0 <= static_cast<FloatingPoint>(std::numeric_limits<int_t>::max())" := by decide +kernel
+/-- `double` 2147483647.0 with `int32_t` components: `left.numerator + 1` overflows -/
+theorem witness_floor_is_max : makeFraction binary64 i32 (binary64.ofInt 2147483647) 100 = .ub .signedOverflow := by
+  decide +kernel
+theorem witness_negative_denominator : makeFraction binary32 i32 w_negden 100 = .ok ⟨-1, -10324441⟩ := by decide +kernel
+theorem witness_zero_result : makeFraction binary32 i32 w_zero 100 = .ok ⟨0, 1⟩ := by decide +kernel
+theorem witness_zero_jump_inexact : makeFraction binary32 i32 w_inexact 100 = .ok ⟨2671640, 363⟩ := by decide +kernel
+theorem witness_simplest_fraction : makeFraction binary32 i32 w_tenth 100 = .ok ⟨1, 10⟩ := by decide +kernel
+
+theorem refuted_at_ub : Admissible binary32 i32 w_ub ∧
+    ¬ ∃ (fuel : Nat) (fr : Frac), makeFraction binary32 i32 w_ub fuel = .ok fr ∧ Faithful i32 w_ub fr :=
+  ⟨by decide +kernel, no_faithful_result _ _ _ 100 _ witness_ub (by simp) (by simp)⟩
+
+theorem refuted_at_ub_ordinary : Admissible binary32 i32 w_ub_ordinary ∧
+    ¬ ∃ (fuel : Nat) (fr : Frac), makeFraction binary32 i32 w_ub_ordinary fuel = .ok fr ∧ Faithful i32 w_ub_ordinary fr :=
+  ⟨by decide +kernel, no_faithful_result _ _ _ 100 _ witness_ub_ordinary (by simp) (by simp)⟩
+
+theorem refuted_at_assertion : Admissible binary32 i32 w_assert ∧
+    ¬ ∃ (fuel : Nat) (fr : Frac), makeFraction binary32 i32 w_assert fuel = .ok fr ∧ Faithful i32 w_assert fr :=
+  ⟨by decide +kernel, no_faithful_result _ _ _ 100 _ witness_assertion (by simp) (by simp)⟩
+
+theorem refuted_at_floor_is_max : Admissible binary64 i32 (binary64.ofInt 2147483647) ∧
+    ¬ ∃ (fuel : Nat) (fr : Frac), makeFraction binary64 i32 (binary64.ofInt 2147483647) fuel = .ok fr
+        ∧ Faithful i32 (binary64.ofInt 2147483647) fr :=
+  ⟨by decide +kernel, no_faithful_result _ _ _ 100 _ witness_floor_is_max (by simp) (by simp)⟩
+
+theorem refuted_at_negative_denominator : Admissible binary32 i32 w_negden ∧
+    ¬ ∃ (fuel : Nat) (fr : Frac), makeFraction binary32 i32 w_negden fuel = .ok fr ∧ Faithful i32 w_negden fr :=
+  ⟨by decide +kernel, no_faithful_result _ _ _ 100 _ witness_negative_denominator (by simp)
+    (by intro fr h; injection h with h; subst h; decide +kernel)⟩
+
+theorem refuted_at_zero_result : Admissible binary32 i32 w_zero ∧
+    ¬ ∃ (fuel : Nat) (fr : Frac), makeFraction binary32 i32 w_zero fuel = .ok fr ∧ Faithful i32 w_zero fr :=
+  ⟨by decide +kernel, no_faithful_result _ _ _ 100 _ witness_zero_result (by simp)
+    (by intro fr h; injection h with h; subst h; decide +kernel)⟩
+
+theorem refuted_at_zero_jump_inexact : Admissible binary32 i32 w_inexact ∧
+    ¬ ∃ (fuel : Nat) (fr : Frac), makeFraction binary32 i32 w_inexact fuel = .ok fr ∧ Faithful i32 w_inexact fr :=
+  ⟨by decide +kernel, no_faithful_result _ _ _ 100 _ witness_zero_jump_inexact (by simp)
+    (by intro fr h; injection h with h; subst h; decide +kernel)⟩
+
+/-- literal reading of the exactness clause: `fraction<int32_t>(0.1f)` is `1/10`, not `13421773/134217728` -/
+theorem refuted_at_simplest_fraction : Admissible binary32 i32 w_tenth ∧
+    ¬ ∃ (fuel : Nat) (fr : Frac), makeFraction binary32 i32 w_tenth fuel = .ok fr ∧ Faithful i32 w_tenth fr :=
+  ⟨by decide +kernel, no_faithful_result _ _ _ 100 _ witness_simplest_fraction (by simp)
+    (by intro fr h; injection h with h; subst h; decide +kernel)⟩
+
+/-- **the property is false of the unchanged code** -/
+theorem C17_refuted : ¬ C17_full := fun h =>
+  refuted_at_ub_ordinary.2 (h binary32 i32 w_ub_ordinary refuted_at_ub_ordinary.1)
+
+/-! ## what holds for every input: the search invariant -/
+
+/-- on entry to the loop: `left = ⌊d⌋/1`, `right = (⌊d⌋+1)/1`, in range, determinant one -/
+theorem C17_invariant_init (F : Fmt) (I : IntTy) (hs : I.signed = true) (hb : 32 ≤ I.bits) (d : FVal)
+    (s : MFState) (h : mfInit F I d = .ok (.cont s)) : Inv I s :=
+  mfInit_inv F I hs hb d s h
+
+/-- every iteration that continues preserves range and determinant, whatever the floating-point
+comparisons and the jump length were -/
+theorem C17_invariant_step (F : Fmt) (I : IntTy) (hs : I.signed = true) (hb : 32 ≤ I.bits) (d : FVal)
+    (s s' : MFState) (hi : Inv I s) (h : mfStep F I d s = .ok (.cont s')) : Inv I s' :=
+  mfStep_inv F I hs hb d s s' hi h
+
+/-- under the invariant both bounds are in lowest terms -/
+theorem C17_lowest_terms (I : IntTy) (s : MFState) (hi : Inv I s) :
+    Int.gcd s.left.num s.left.den = 1 ∧ Int.gcd s.right.num s.right.den = 1 :=
+  coprime_of_det _ _ _ _ hi.det
+
+example : Inv i32 ⟨⟨0, 1⟩, ⟨1, 3⟩, 0, 2⟩ := ⟨⟨by decide, by decide⟩, ⟨by decide, by decide⟩, by decide⟩
+
+/-! ## exits that test equality are exact -/
+
+theorem C17_exit_prelude (F : Fmt) (I : IntTy) (d : FVal) (f : Frac) (e : Exit)
+    (h : mfInit F I d = .ok (.ret f e)) : fCmp .eq (fracToF F f) d = true :=
+  (mfInit_exit F I d f e h).2
+
+theorem C17_exit_step (F : Fmt) (I : IntTy) (d : FVal) (s : MFState) (f : Frac) (e : Exit)
+    (h : mfStep F I d s = .ok (.ret f e)) :
+    e = .zeroJump ∨ (e = .jumpEq ∧ fCmp .eq (fracToF F f) d = true) ∨
+    (e = .mid ∧ ∃ mid, midOf I s.left s.right = .ok mid ∧ f = ⟨I.wrap mid.num, I.wrap mid.den⟩ ∧
+        ((fracToF F mid).cmp? d).isSome = true → fCmp .eq (fracToF F mid) d = true) := by
+  rcases mfStep_exit F I d s f e h with hz | hj | ⟨hm, mid, h1, h2, h3, h4⟩
+  · exact Or.inl hz
+  · exact Or.inr (Or.inl hj)
+  · right; right
+    refine ⟨hm, mid, ?_⟩
+    intro ⟨_, _, ho⟩
+    exact fCmp_eq_of_not_lt_gt _ _ h3 h4 ho
+
+example : mfInit binary32 i32 (binary32.ofInt 5) = .ok (.ret ⟨5, 1⟩ .left0) := by decide +kernel
+
+/-! ## negative inputs -/
+
+theorem C17_negative_by_negation (F : Fmt) (I : IntTy) (d : FVal) (fuel : Nat) (h : fCmp .lt d F.zero = true) :
+    makeFractionX F I d fuel =
+      (mfPos F I d.neg fuel >>= fun r => cNeg (I, r.1.num) >>= fun nn => pure (⟨castI I nn, I.wrap r.1.den⟩, r.2)) := by
+  unfold makeFractionX
+  simp only [h, if_true]
+
+example : fCmp .lt (binary32.ofInt (-3)) binary32.zero = true := by decide +kernel
+
+/-! ## small ratios: termination with the exact reduced fraction (kernel sweep) -/
+
+def ratioOK (F : Fmt) (I : IntTy) (neg : Bool) (p q : Nat) : Bool :=
+  let g := Nat.gcd p q
+  let s : Int := if neg then -1 else 1
+  makeFraction F I (F.div (F.ofInt (s * p)) (F.ofInt q)) 64 == .ok ⟨s * (p / g : Nat), (q / g : Nat)⟩
+
+def sweepOK (F : Fmt) (I : IntTy) (Q : Nat) : Bool :=
+  (List.range Q).all fun q0 => (List.range (3 * (q0 + 1) + 1)).all fun p =>
+    ratioOK F I false p (q0 + 1) && ratioOK F I true p (q0 + 1)
+
+theorem sweep_f32_i32 : sweepOK binary32 i32 8 = true := by decide +kernel
+
+/-- `fraction<int32_t>(float(±p)/float(q))` is exactly `±p/q` reduced, for `1 ≤ q ≤ 8`, `p ≤ 3q` -/
+theorem C17_small_ratios_exact (p q : Nat) (neg : Bool) (hq : 1 ≤ q ∧ q ≤ 8) (hp : p ≤ 3 * q) :
+    ratioOK binary32 i32 neg p q = true := by
+  have h := sweep_f32_i32
+  unfold sweepOK at h
+  rw [List.all_eq_true] at h
+  have h1 := h (q - 1) (by simp; omega)
+  rw [List.all_eq_true] at h1
+  have h2 := h1 p (by simp; omega)
+  have hq' : q - 1 + 1 = q := by omega
+  rw [hq'] at h2
+  simp only [Bool.and_eq_true] at h2
+  cases neg
+  · exact h2.1
+  · exact h2.2
+
+example : ratioOK binary32 i32 true 7 3 = true := C17_small_ratios_exact 7 3 true (by omega) (by omega)
+
+/-! ## outside the known defect classes the result is faithful -/
+
+theorem C17_partial (F : Fmt) (I : IntTy) (x : FVal) (fuel : Nat)
+    (hd : inDomain I x = true) (hc : classify F I x fuel = none) :
+    ∃ fr, makeFraction F I x fuel = .ok fr ∧ Faithful I x fr := by
+  unfold classify at hc
+  simp only [hd] at hc
+  unfold makeFraction
+  cases hm : makeFractionX F I x fuel with
+  | ok p =>
+    obtain ⟨fr, e⟩ := p
+    simp only [hm] at hc
+    refine ⟨fr, rfl, ?_⟩
+    unfold Faithful
+    cases hv : violated I x fr with
+    | none => rfl
+    | some c =>
+      simp only [hv] at hc
+      cases c <;> simp at hc
+      split at hc <;> simp at hc
+  | ub k => by_cases hfm : floorIsMax I x = true <;> simp [hm, hfm] at hc
+  | _ => simp [hm] at hc
+
+/-- a class never hides an input on which the code is right -/
+theorem C17_defect_sound (F : Fmt) (I : IntTy) (x : FVal) (fuel : Nat) (c : Defect)
+    (hc : classify F I x fuel = some c) :
+    ¬ ∃ fr, makeFraction F I x fuel = .ok fr ∧ Faithful I x fr := by
+  rintro ⟨fr, hf, hfa⟩
+  unfold classify at hc
+  unfold makeFraction at hf
+  unfold Faithful at hfa
+  by_cases hd : inDomain I x = false
+  · simp [hd] at hc
+  · simp only [hd] at hc
+    cases hm : makeFractionX F I x fuel with
+    | ok p =>
+      obtain ⟨fr', e⟩ := p
+      rw [hm] at hf
+      have : fr' = fr := by simpa [Res.map, bind, Res.bind] using hf
+      subst this
+      simp [hm, hfa] at hc
+    | _ => rw [hm] at hf; simp [Res.map, bind, Res.bind] at hf
+
+example : classify binary32 i32 (binary32.ofDyadic false 3 (-2)) 100 = none := by decide +kernel
+example : classify binary32 i32 w_negden 100 = some (.clause .denPositive) := by decide +kernel
+example : classify binary32 i32 w_tenth 100 = some .notExactRoundTrip := by decide +kernel
+
+end Cnl.C17
